@@ -27,25 +27,29 @@ POPS = ["π1", "π2", "Pi3"]
 def mk_var(v):
     from y0.dsl import CounterfactualVariable, Intervention, Variable
 
+    from .graphs import fresh
+
     name, star, ivs = v
     if ivs:
-        return CounterfactualVariable(name=name, star=star,
-                                      interventions=frozenset(Intervention(n, bool(s)) for n, s in ivs))
-    return Variable(name, star)
+        return CounterfactualVariable(name=fresh(name), star=star,
+                                      interventions=frozenset(Intervention(fresh(n), bool(s)) for n, s in ivs))
+    return Variable(fresh(name), star)
 
 
 def mk_var_public(v):
     """The public way to a (valued, subscripted) variable: +A / -A and the @ operator."""
     from y0.dsl import Variable
 
+    from .graphs import fresh
+
     name, star, ivs = v
-    x = Variable(name)
+    x = Variable(fresh(name))
     if star is True:
         x = +x
     elif star is False:
         x = -x
     if ivs:
-        x = x @ [(+Variable(n) if s else -Variable(n)) for n, s in ivs]
+        x = x @ [(+Variable(fresh(n)) if s else -Variable(fresh(n))) for n, s in ivs]
     return x
 
 
